@@ -2,6 +2,7 @@ import RV.C19.LemmasOps
 import RV.C19.LemmasTotal
 import RV.C19.LemmasG
 import RV.C19.LemmasN3
+import RV.C19.LemmasSep3
 /-
   C19 — "An RDF Collection behaves like the Python list it represents."
 
@@ -518,5 +519,132 @@ example : (specRun [] exOps).2 =
      .nat 0, .err .valueError, .unit, .err .valueError] := by decide
 /-- the unrelated triple is still there, and nothing else -/
 example : (run 100 exEmpty exOps).1.g = [(7, 5, 100)] := by decide
+
+/-! ### Round g (c): separation — a Collection among other lists in the same graph -/
+
+/-- `F` marks *foreign* subjects: anything the collection `h` does not own — the cells of other collections,
+    the private prefix of a collection sharing its tail with `h`, malformed list triples, … — provided the
+    head, rdf:nil and the blank nodes still to be minted are not foreign and the part of the graph outside
+    `F` (`own F g`) holds a well-formed chain for `h` (so that `WF` only has to hold for that part: the graph
+    as a whole may contain any number of other lists).
+    Then every operation on the whole graph answers exactly what it answers on the own part, changes the own
+    part exactly as it does there, mints the same blank nodes, and leaves every foreign triple untouched. -/
+def Statement_coll_separation : Prop :=
+  ∀ (F : Term → Bool) (s : St) (h : Term) (op : Op),
+    F h = false → F NIL = false → (∀ n, s.fresh ≤ n → F n = false) → WF ⟨own F s.g, s.fresh⟩ h →
+    (step h s op).2 = (step h ⟨own F s.g, s.fresh⟩ op).2 ∧
+      own F (step h s op).1.g = (step h ⟨own F s.g, s.fresh⟩ op).1.g ∧
+      (step h s op).1.fresh = (step h ⟨own F s.g, s.fresh⟩ op).1.fresh ∧
+      foreign F (step h s op).1.g = foreign F s.g
+
+theorem coll_separation : Statement_coll_separation := by
+  intro F s h op hh hn hfr ⟨ps, inv⟩
+  exact step_sep op hh hn hfr inv
+
+/-- Every history on a graph that also holds foreign list structure: all answers are the list's, the own part
+    stays a well-formed chain denoting the list, and no foreign triple is ever added, removed or reordered. -/
+def Statement_history_separation : Prop :=
+  ∀ (ops : List Op) (F : Term → Bool) (s : St) (h : Term) (xs : List Term),
+    F h = false → F NIL = false → (∀ n, s.fresh ≤ n → F n = false) →
+    WF ⟨own F s.g, s.fresh⟩ h → asList (own F s.g) h = .ok xs →
+    agreeAll (run h s ops).2 (specRun xs ops).2 ∧
+      WF ⟨own F (run h s ops).1.g, (run h s ops).1.fresh⟩ h ∧
+      asList (own F (run h s ops).1.g) h = .ok (specRun xs ops).1 ∧
+      foreign F (run h s ops).1.g = foreign F s.g
+
+/-- proved for the histories without `c[len(c)] = x` (C19-K1), like `history_refines_partial` -/
+theorem history_separation_partial :
+    ∀ (ops : List Op) (F : Term → Bool) (s : St) (h : Term) (xs : List Term),
+      F h = false → F NIL = false → (∀ n, s.fresh ≤ n → F n = false) →
+      WF ⟨own F s.g, s.fresh⟩ h → asList (own F s.g) h = .ok xs → okHist xs ops = true →
+      agreeAll (run h s ops).2 (specRun xs ops).2 ∧
+        WF ⟨own F (run h s ops).1.g, (run h s ops).1.fresh⟩ h ∧
+        asList (own F (run h s ops).1.g) h = .ok (specRun xs ops).1 ∧
+        foreign F (run h s ops).1.g = foreign F s.g := by
+  intro ops
+  induction ops with
+  | nil => intro F s h xs _ _ _ wf ha _; exact ⟨trivial, wf, ha, rfl⟩
+  | cons op ops ih =>
+    intro F s h xs hh hn hfr wf ha hok
+    simp only [okHist, Bool.and_eq_true, Bool.not_eq_eq_eq_not, Bool.not_true] at hok
+    obtain ⟨e1, e2, e3, e4⟩ := coll_separation F s h op hh hn hfr wf
+    obtain ⟨h1, h2, h3⟩ := coll_refines_partial ⟨own F s.g, s.fresh⟩ h xs op wf ha hok.1
+    have hst : (step h ⟨own F s.g, s.fresh⟩ op).1 = ⟨own F (step h s op).1.g, (step h s op).1.fresh⟩ := by
+      rw [e2, e3]
+    rw [hst] at h2 h3
+    have hfr' : ∀ n, (step h s op).1.fresh ≤ n → F n = false :=
+      fun n hle => hfr n (Nat.le_trans (step_fresh_le h s op) hle)
+    obtain ⟨h4, h5, h6, h7⟩ := ih F (step h s op).1 h _ hh hn hfr' h2 h3 hok.2
+    refine ⟨⟨?_, h4⟩, h5, h6, h7.trans e4⟩
+    show ((step h s op).2).agrees _
+    rw [e1]
+    exact h1
+
+theorem history_separation_witness : ¬ Statement_history_separation := by
+  intro H
+  have := (H [.setItem 1 11] (fun _ => false) ⟨exG1, 1000⟩ 100 [10] rfl rfl (fun _ _ => rfl)
+    ⟨_, exG1_inv⟩ rfl).1
+  have h2 : (run 100 ⟨exG1, 1000⟩ [.setItem 1 11]).2 = [.unit] := by decide
+  have h3 : (specRun [10] [.setItem 1 11]).2 = [.err .indexError] := by decide
+  rw [h2, h3] at this
+  have h := this.1
+  revert h
+  unfold Out.agrees
+  decide
+
+/-! #### two collections sharing a tail: `c1 = [10, 11, 12]` on cells 100 → 1000 → 1001, and
+    `c2 = [20, 11, 12]` whose private prefix is the one cell 200, linked to `c1`'s second cell -/
+
+def exShared : St :=
+  ⟨(run 100 exEmpty [.extend [10, 11, 12]]).1.g ++ [(200, FIRST, 20), (200, REST, 1000)], 1002⟩
+
+def exF : Term → Bool := fun t => t == 200
+
+theorem exShared_own_wf : WF ⟨own exF exShared.g, exShared.fresh⟩ 100 ∧
+    asList (own exF exShared.g) 100 = .ok [10, 11, 12] := by
+  have h := history_refines_partial [.extend [10, 11, 12]] exEmpty 100 [] exEmpty_wf rfl rfl
+  have e : (⟨own exF exShared.g, exShared.fresh⟩ : St) = (run 100 exEmpty [.extend [10, 11, 12]]).1 := rfl
+  rw [e]
+  exact ⟨h.2.1, h.2.2⟩
+
+/-- both read as lists; the frame theorem applies to every operation through `c1` (non-vacuity of
+    `coll_separation` with a foreign part that is a list prefix hanging on `c1`'s chain) -/
+example : iter exShared.g 100 = .ok [10, 11, 12] ∧ iter exShared.g 200 = .ok [20, 11, 12] := ⟨rfl, rfl⟩
+example : ∀ op, foreign exF (step 100 exShared op).1.g = [(200, FIRST, 20), (200, REST, 1000)] := fun op =>
+  (coll_separation exF exShared 100 op rfl rfl
+    (fun n hn => by
+      have hn' : 1002 ≤ n := hn
+      show (n == 200) = false
+      exact beq_eq_false_iff_ne.mpr (fun e => by rw [e] at hn'; exact absurd hn' (by decide)))
+    exShared_own_wf.1).2.2.2
+
+/-- Two collections sharing a tail are NOT two independent Python lists: although the private prefix of
+    `c2` is untouched (frame), what `c2` denotes follows the shared cells — and deleting the shared cell
+    through `c1` cuts `c2` short without any error. -/
+def Statement_shared_tail_independent : Prop :=
+  ∀ (F : Term → Bool) (s : St) (h h2 : Term) (op : Op),
+    F h = false → F NIL = false → (∀ n, s.fresh ≤ n → F n = false) → WF ⟨own F s.g, s.fresh⟩ h →
+    F h2 = true → iter (step h s op).1.g h2 = iter s.g h2
+
+theorem shared_tail_witness : ¬ Statement_shared_tail_independent := by
+  intro H
+  have := H exF exShared 100 200 (.delItem 1) rfl rfl
+    (fun n hn => by
+      have hn' : 1002 ≤ n := hn
+      show (n == 200) = false
+      exact beq_eq_false_iff_ne.mpr (fun e => by rw [e] at hn'; exact absurd hn' (by decide)))
+    exShared_own_wf.1 rfl
+  have h1 : iter (step 100 exShared (.delItem 1)).1.g 200 = .ok [20] := rfl
+  have h2 : iter exShared.g 200 = .ok [20, 11, 12] := rfl
+  rw [h1, h2] at this
+  simp at this
+
+/-- what the shared list reads after writes through `c1`: an append and an item assignment beyond the shared
+    cell are seen through `c2` (as with shared cons cells), deleting the shared cell truncates `c2` -/
+example : iter (step 100 exShared (.append 13)).1.g 200 = .ok [20, 11, 12, 13] := rfl
+example : iter (step 100 exShared (.setItem 2 14)).1.g 200 = .ok [20, 11, 14] := rfl
+example : iter (step 100 exShared (.setItem 0 14)).1.g 200 = .ok [20, 11, 12] := rfl
+example : iter (step 100 exShared (.delItem 1)).1.g 200 = .ok [20] := rfl
+example : iter (step 100 exShared (.delItem 0)).1.g 200 = .ok [20] := rfl
 
 end RV.C19
